@@ -38,7 +38,9 @@ def _is_parameter_test(t):
 
 
 def check_callback(ctx, fn, role):
-    """fn = get_query_params / fill_query_params."""
+    """fn = get_query_params / fill_query_params, interpreted (fail-closed AST interpreter) on a statement whose traversal visits a fixed sequence of
+    stand-in nodes: which nodes the callback keeps / replaces, which values go where, what happens to the caller's list."""
+    from ..interp import Interp, Obj, Raised, Env
     file = UTILS
     cons = fn.name
     qparam = fn.args.args[0].arg
@@ -50,62 +52,62 @@ def check_callback(ctx, fn, role):
            file=file, line=fn.lineno)
     if not ok:
         return
-    cbname = calls[0].args[1].id if isinstance(calls[0].args[1], ast.Name) else None
-    cb = None
-    for n in fn.body:
-        if isinstance(n, ast.FunctionDef) and n.name == cbname:
-            cb = n
-    ctx.need(cb is not None, f'{cons}: callback {cbname} is not a local function')
     ctx.count('callbacks')
-    # every non-None return is under isinstance(node, Parameter); no other pruning
-    node = cb.args.args[0].arg
-    for r in [n for n in walk_no_nested(cb) if isinstance(n, ast.Return)]:
-        if r.value is None or (isinstance(r.value, ast.Constant) and r.value.value is None):
-            continue
-        guarded = False
-        p = getattr(r, '_parent', None)
-        while p is not None and p is not cb:
-            if isinstance(p, ast.If) and _is_parameter_test(p.test) and r in list(ast.walk(ast.Module(body=p.body, type_ignores=[]))):
-                guarded = True
-            p = getattr(p, '_parent', None)
-        ctx.ob('C12.same-walker', f'{cons}:{cbname}:prunes-only-at-Parameter', guarded,
-               f'{cons}: the callback returns `{norm(r.value)}` for a node that is not a Parameter; a non-None return stops '
-               f'the descent, so placeholders below that node are not {role}', file=file, line=r.lineno)
-    tests = [n for n in ast.walk(cb) if isinstance(n, ast.If) and _is_parameter_test(n.test)]
-    ctx.ob('C12.same-walker', f'{cons}:{cbname}:handles-Parameter', bool(tests),
-           f'{cons}: the callback has no isinstance(node, Parameter) case', file=file, line=cb.lineno)
+    p1, p2, p3 = Obj('Parameter', value='?', alias=None), Obj('Parameter', value='?', alias=None), Obj('Parameter', value='?', alias=None)
+    visits = [Obj('Select'), Obj('Identifier', parts=['a']), p1, Obj('BinaryOperation', op='=', args=[]), p2, Obj('Constant', value=5), Obj('Function', op='f'), p3]
+    log = []
+
+    def traverse(it, query, callback, **kw):
+        for n in query.attrs['_visits']:
+            r = callback(n, is_table=False, is_target=False, parent_query=None, callstack=[])
+            log.append((n, r))
+        return None
+    query = Obj('Select', _visits=visits)
+    stubs = {'query_traversal': traverse, 'utils.query_traversal': traverse, 'copy.deepcopy': lambda it, x: list(x) if isinstance(x, list) else x,
+             'deepcopy': lambda it, x: list(x) if isinstance(x, list) else x, 'copy.copy': lambda it, x: list(x) if isinstance(x, list) else x,
+             'ast.Constant': lambda it, v, *a, **k: Obj('Constant', value=v), 'Constant': lambda it, v, *a, **k: Obj('Constant', value=v)}
+    it = Interp({'Parameter': set(), 'Constant': set()}, stubs)
+    values = ['v1', 'v2', 'v3']
+    caller_values = list(values)
+    try:
+        res = it.call_function(fn, [query] + ([caller_values] if role == 'bound' else []), {}, Env())
+    except Raised as r:
+        ctx.ob('C12.same-walker', f'{cons}:runs', False, f'{cons} raises {r.exc_name} on a statement with three placeholders', file=file, line=fn.lineno)
+        return
+    params = [p1, p2, p3]
+    pruned_other = [(n, r) for n, r in log if r is not None and not any(n is p for p in params)]
+    ctx.ob('C12.same-walker', f'{cons}:prunes-only-at-Parameter', not pruned_other,
+           f'{cons}: the callback returns a value for {[n.kind for n, _ in pruned_other]} nodes, which are not placeholders; a non-None return stops the descent '
+           f'(and replaces the node), so placeholders below that node are not {role}', file=file, line=fn.lineno)
+    # ... and syntactically: every return of a value in the callback is dominated by the isinstance(node, Parameter) test (whatever the node looks like)
+    from ..cfg import dominating_conditions
+    cbname = calls[0].args[1].id if isinstance(calls[0].args[1], ast.Name) else None
+    cb = next((n for n in fn.body if isinstance(n, ast.FunctionDef) and n.name == cbname), None)
+    if cb is not None:
+        for r in [n for n in walk_no_nested(cb) if isinstance(n, ast.Return)]:
+            if r.value is None or (isinstance(r.value, ast.Constant) and r.value.value is None):
+                continue
+            dom = any(pol and _is_parameter_test(t) for t, pol in dominating_conditions(r, cb))
+            ctx.ob('C12.same-walker', f'{cons}:{cbname}:value-only-under-Parameter-test', dom,
+                   f'{cons}: the callback returns `{norm(r.value)}` on a path that is not restricted to Parameter nodes; a non-None return stops the descent, so '
+                   f'placeholders below that node are not {role}', file=file, line=r.lineno)
+    handled = [r for n, r in log if any(n is p for p in params)]
+    ctx.ob('C12.same-walker', f'{cons}:handles-Parameter', len(handled) == 3 and all(r is not None for r in handled),
+           f'{cons}: the callback does not handle every Parameter node it is shown', file=file, line=fn.lineno)
     if role == 'bound':
-        pops = [n for n in ast.walk(cb) if isinstance(n, ast.Call) and isinstance(n.func, ast.Attribute) and n.func.attr == 'pop']
-        fifo = len(pops) == 1 and len(pops[0].args) == 1 and isinstance(pops[0].args[0], ast.Constant) and pops[0].args[0].value == 0
-        ctx.ob('C12.fifo', cons, fifo,
-               f'{cons}: values are not consumed first-in first-out with pop(0) ({[norm(p) for p in pops]}); the i-th value must '
-               f'go to the i-th placeholder', file=file, line=cb.lineno, witness='select ?, ? -- with values [1, 2]')
-        if fifo:
-            src = norm(pops[0].func.value)
-            # private copy taken before traversal
-            copied = False
-            for st in fn.body:
-                if isinstance(st, ast.Assign) and len(st.targets) == 1 and norm(st.targets[0]) == src:
-                    v = st.value
-                    if isinstance(v, ast.Call) and dotted(v.func) in ('copy.deepcopy', 'deepcopy', 'copy.copy', 'list') \
-                            and st.lineno < calls[0].lineno:
-                        copied = True
-                    if isinstance(v, ast.Subscript) and norm(v).endswith('[:]'):
-                        copied = True
-            ctx.ob('C12.private-values', cons, copied,
-                   f'{cons} pops from the caller\'s value list `{src}` without copying it first: a second execution (or the '
-                   f'caller) sees a consumed list', file=file, line=fn.lineno)
-        # replacement is a Constant built from the popped value
-        for t in tests:
-            rets = [n for n in ast.walk(t) if isinstance(n, ast.Return) and n.value is not None]
-            okc = bool(rets) and all(isinstance(r.value, ast.Call) and (dotted(r.value.func) or '').split('.')[-1] == 'Constant'
-                                     for r in rets)
-            ctx.ob('C12.same-walker', f'{cons}:{cbname}:replaces-by-Constant', okc,
-                   f'{cons}: a placeholder is not replaced by Constant(<value>)', file=file, line=t.lineno)
+        got = [r.value if isinstance(r, Obj) and r.kind == 'Constant' else r for r in handled]
+        ctx.ob('C12.fifo', cons, got == values,
+               f'{cons}: the placeholders receive {got} for the values {values}: the i-th value must go to the i-th placeholder as a Constant', file=file,
+               line=fn.lineno, witness='select ?, ? -- with values [1, 2]')
+        ctx.ob('C12.same-walker', f'{cons}:replaces-by-Constant', all(isinstance(r, Obj) and r.kind == 'Constant' for r in handled),
+               f'{cons}: a placeholder is not replaced by Constant(<value>)', file=file, line=fn.lineno)
+        ctx.ob('C12.private-values', cons, caller_values == values,
+               f'{cons} consumes the caller\'s value list (left: {caller_values}): a second execution (or the caller) sees a consumed list', file=file, line=fn.lineno)
+        ctx.ob('C12.same-walker', f'{cons}:returns-statement', res is query, f'{cons} must return the statement it filled', file=file, line=fn.lineno)
     else:
-        rets = [n for n in walk_no_nested(fn) if isinstance(n, ast.Return)]
-        ctx.ob('C12.same-walker', f'{cons}:returns-collected', len(rets) == 1 and rets[0].value is not None,
-               f'{cons} does not return the collected list', file=file, line=fn.lineno)
+        same = isinstance(res, list) and len(res) == 3 and all(a is b for a, b in zip(res, params))
+        ctx.ob('C12.same-walker', f'{cons}:returns-collected', same,
+               f'{cons} must return the placeholders of the statement in visit order; got {res!r}', file=file, line=fn.lineno)
 
 
 def check_count(ctx):
